@@ -19,7 +19,7 @@ import bfg9000.builtins.find as F
 import bfg9000.path as BP
 from bfg9000.build_inputs import Regenerating
 from bfg9000.exceptions import AbortConfigure
-from specs.stubs import Recorder, ItemsStub, StringStub
+from specs.stubs import Recorder, ItemsStub, StringStub, ContextStub, CacheMapStub
 
 PathT = opaque_sort('FsPath')
 PT = ('opaque', 'FsPath')
@@ -153,5 +153,91 @@ class FindCheckCache(Contract):
         return out
 
 
+
+
+class FindFromFilter(Contract):
+    """find_from_filter: whether the result comes from the find cache or from a fresh search, every found path becomes
+    a file object of the requested type and every extra (`not_now`) path is registered as a generic file / directory,
+    all with the caller's `dist` flag; a fresh cached search stores its results and searched directories."""
+    target = 'bfg9000/builtins/find.py::find_from_filter'
+    properties = ('C08', 'C18')
+
+    def cases(self):
+        return ['cache-hit', 'cache-miss', 'uncached']
+
+    def params(self, cx, case):
+        def path(n):
+            return Obj(object, {'directory': cx.bool('is_dir_' + n), 'tag': n})
+        found, extra = [path('f0'), path('f1')], [path('e0')]
+        cx.ghost('found', found)
+        cx.ghost('extra', extra)
+        cx.ghost('ignored', path('x0'))
+        cx.ghost('seen_dir', path('d0'))
+
+        def maker(name):
+            def h(I2, args, kwargs):
+                I2.events.append(('make', name, args[0], kwargs.get('dist', 'MISSING')))
+                return Obj(object, {'made_by': name, 'of': args[0]})
+            return OpaqueFn(name, h)
+        fns = PDict({k: maker(k) for k in ('auto_file', 'directory', 'generic_file')})
+        entry = Obj(object, {'found': PList(list(found)), 'extra': PList(list(extra))}) if case == 'cache-hit' else None
+        cache = Obj(CacheMapStub, {'_entry': entry, 'calls': PList([])})
+        build = PDict({'find_cache': cache, 'find_dirs': Obj(Recorder, {'calls': PList([])})})
+        ctx = Obj(ContextStub, {'_fns': fns, 'build': build, 'env': Obj(object, {})})
+        flt = Sym(z3.Const('the_filter', opaque_sort('FileFilter')), ('opaque', 'FileFilter'))
+        return {'context': ctx, 'file_filter': flt, 'dist': cx.bool('dist'), 'cache': case != 'uncached'}
+
+    def opaque_calls(self):
+        a = self.cur
+
+        def find_files(I, args, kwargs, node):
+            I.events.append(('search',))
+            I.call(I.getattr(args[2], 'append', node), [a.seen_dir], {}, node)
+            return PList([(a.found[0], F.FindResult.include), (a.extra[0], F.FindResult.not_now),
+                          (a.ignored, F.FindResult.exclude), (a.found[1], F.FindResult.include)])
+        return {F._find_files: find_files}
+
+    def ensures(self, a, r):
+        makes = [e for e in a.events if e[0] == 'make']
+        dist = a.dist
+
+        def kind_ok(e, p, extra):
+            # files: auto_file (found) / generic_file (extra); directories: directory -- decided by the path's flag
+            isdir = p.attrs['directory']
+            want_dir = e[1] == 'directory'
+            other = 'generic_file' if extra else 'auto_file'
+            return z3.And(T.zbool(M.lift(isdir)) == z3.BoolVal(want_dir), z3.BoolVal(want_dir or e[1] == other))
+        out = {}
+        tag = lambda o: o.attrs['tag']        # noqa: E731  (paths are cloned per explored path: compare by tag)
+        by_path = {tag(e[2]): e for e in makes}
+        ok_count = len(makes) == len(a.found) + len(a.extra) and len(by_path) == len(makes)
+        out['one_object_per_found_or_extra_path'] = z3.BoolVal(ok_count and tag(a.ignored) not in by_path)
+        conds = []
+        for p in a.found:
+            e = by_path.get(tag(p))
+            conds.append(kind_ok(e, e[2], False) if e else z3.BoolVal(False))
+        for p in a.extra:
+            e = by_path.get(tag(p))
+            conds.append(kind_ok(e, e[2], True) if e else z3.BoolVal(False))
+        out['type_follows_the_kind_of_path'] = z3.And(*conds)
+        out['dist_flag_forwarded_to_every_object'] = z3.BoolVal(all(e[3] is dist for e in makes))
+        res = r.items if isinstance(r, PList) and r.concrete else None
+        out['result_is_the_objects_of_the_found_paths_in_order'] = z3.BoolVal(
+            res is not None and [tag(x.attrs.get('of')) for x in res] == [tag(p) for p in a.found])
+        cache = a.context.attrs['build'].d['find_cache'].attrs['calls']
+        dirs = a.context.attrs['build'].d['find_dirs'].attrs['calls']
+        searched = any(e[0] == 'search' for e in a.events)
+        if a.cache and searched:
+            c = cache.items
+            out['fresh_search_is_cached_with_its_directories'] = z3.BoolVal(
+                len(c) == 1 and c[0][0] is a.file_filter and [tag(x) for x in c[0][1].items] == [tag(p) for p in a.found] and
+                [tag(x) for x in c[0][2].items] == [tag(p) for p in a.extra] and len(dirs.items) == 1 and
+                [tag(x) for x in dirs.items[0][0].items] == [tag(a.seen_dir)])
+        else:
+            out['cache_untouched'] = z3.BoolVal(not cache.items and not dirs.items)
+        out['searched_only_without_a_cache_entry'] = z3.BoolVal(searched == (a.context.attrs['build'].d['find_cache'].attrs['_entry'] is None or not a.cache))
+        return out
+
+
 def registry():
-    return [FindCheckCache()]
+    return [FindCheckCache(), FindFromFilter()]
